@@ -711,6 +711,40 @@ func checkT5(c *Ctx, jr *joinRoles) {
 		}
 		return found
 	}
+	// calcOf: the call that computes the interval behind v: result #0 of a product call, possibly
+	// handed on by a helper that prepares several things at once (opts, interval, err := opts.settle())
+	var calcOf func(v ssa.Value, depth int) *ssa.Call
+	calcOf = func(v ssa.Value, depth int) *ssa.Call {
+		ex, ok := resolveUp(v, 0).(*ssa.Extract)
+		if !ok || depth > 2 {
+			return nil
+		}
+		call, ok := ex.Tuple.(*ssa.Call)
+		if !ok || !p.IsProduct(p.Callee(call)) {
+			return nil
+		}
+		if ex.Index == 0 {
+			return call
+		}
+		var found *ssa.Call
+		h := p.Callee(call)
+		for _, b := range h.Blocks {
+			ret, isRet := b.Instrs[len(b.Instrs)-1].(*ssa.Return)
+			if !isRet || b == h.Recover || ex.Index >= len(ret.Results) {
+				continue
+			}
+			rv := returnedValues(ret)[ex.Index]
+			if _, isC := rv.(*ssa.Const); isC {
+				continue
+			}
+			inner := calcOf(rv, depth+1)
+			if inner == nil || (found != nil && found != inner) {
+				return nil
+			}
+			found = inner
+		}
+		return found
+	}
 	for fn := range inCtor {
 		for _, b := range fn.Blocks {
 			for _, in := range b.Instrs {
@@ -718,10 +752,8 @@ func checkT5(c *Ctx, jr *joinRoles) {
 				if !ok {
 					continue
 				}
-				if ex, ok := resolveUp(st.Val, 0).(*ssa.Extract); ok && ex.Index == 0 {
-					if call, ok := ex.Tuple.(*ssa.Call); ok && p.IsProduct(p.Callee(call)) {
-						calcCall = call
-					}
+				if call := calcOf(st.Val, 0); call != nil {
+					calcCall = call
 				}
 			}
 		}
@@ -729,10 +761,8 @@ func checkT5(c *Ctx, jr *joinRoles) {
 	// the interval handed to the goroutine with the go statement instead of through a field
 	for fn := range inCtor {
 		for _, v := range p.virtualFieldStores(fn, "interruptInterval") {
-			if ex, ok := resolveUp(v, 0).(*ssa.Extract); ok && ex.Index == 0 {
-				if call, ok := ex.Tuple.(*ssa.Call); ok && p.IsProduct(p.Callee(call)) {
-					calcCall = call
-				}
+			if call := calcOf(v, 0); call != nil {
+				calcCall = call
 			}
 		}
 	}
@@ -740,11 +770,34 @@ func checkT5(c *Ctx, jr *joinRoles) {
 		c.R.Fail("T5", jr.key+"#ctor", p.Pos(ctor.Pos()), "UNRESOLVED-ANCHOR: constructor does not store the result of an interval computation in interruptInterval")
 		return
 	}
-	a0, a1 := p.Sym(calcCall.Call.Args[0]).String(), p.Sym(calcCall.Call.Args[1]).String()
+	// (the computation may be reached through a thin method of the options that only hands its own
+	// fields on: opts.calcInterruptInterval() = calcInterruptInterval(opts.Timeout, opts.TimeoutInaccuracy))
+	argSym := func(k int) *Sym { return p.Sym(calcCall.Call.Args[k]) }
+	wrapped := false
+	if len(calcCall.Call.Args) != 2 {
+		outer := calcCall
+		w := p.Callee(outer)
+		var inner *ssa.Call
+		if w != nil && len(w.Blocks) == 1 {
+			if ret, isRet := w.Blocks[0].Instrs[len(w.Blocks[0].Instrs)-1].(*ssa.Return); isRet && len(ret.Results) == 2 {
+				if ex, isEx := ret.Results[0].(*ssa.Extract); isEx {
+					inner, _ = ex.Tuple.(*ssa.Call)
+				}
+			}
+		}
+		if inner == nil || len(inner.Call.Args) != 2 || !p.IsProduct(p.Callee(inner)) {
+			c.R.Fail("T5", jr.key+"#ctor", p.InstrPos(calcCall), "UNDECIDED: the interval computation "+p.calleeName(calcCall.Common())+" does not take (timeout, inaccuracy) and is not a thin wrapper of one that does")
+			return
+		}
+		wrapped = true
+		calcCall = inner
+		argSym = func(k int) *Sym { return p.substParams(outer, w, p.Sym(inner.Call.Args[k])) }
+	}
+	a0, a1 := argSym(0).String(), argSym(1).String()
 	// the inaccuracy must be read from the result of the options' normalising method (a product
 	// method on the options type applied to the constructor's options), not from the raw options
 	normalised := false
-	if s1 := p.Sym(calcCall.Call.Args[1]); s1.Op == "field" && len(s1.Args) == 1 {
+	if s1 := argSym(1); s1.Op == "field" && len(s1.Args) == 1 {
 		if base := s1.Args[0].StripConv(); base.Op == "call" {
 			if nc, ok := base.V.(*ssa.Call); ok {
 				if nf := p.Callee(nc); nf != nil && p.IsProduct(nf) && nf.Signature.Recv() != nil && namedOrigin(nf.Signature.Recv().Type()) != nil && strings.HasSuffix(namedOrigin(nf.Signature.Recv().Type()).Obj().Name(), "Opts") {
@@ -758,7 +811,7 @@ func checkT5(c *Ctx, jr *joinRoles) {
 	}
 	// ... or the constructor substitutes the default in its own copy of the options before the call
 	inlineDefault := false
-	if ld, isLd := calcCall.Call.Args[1].(*ssa.UnOp); isLd && ld.Op == token.MUL && !normalised {
+	if ld, isLd := calcCall.Call.Args[1].(*ssa.UnOp); isLd && ld.Op == token.MUL && !normalised && !wrapped {
 		if fa, isFA := ld.X.(*ssa.FieldAddr); isFA && fieldName(fa.X.Type(), fa.Field) == "TimeoutInaccuracy" {
 			if stores, okd := p.defaultsInaccuracy(calcCall.Parent()); okd {
 				inlineDefault = true
@@ -771,7 +824,7 @@ func checkT5(c *Ctx, jr *joinRoles) {
 		}
 	}
 	// ... or a normalising method with a pointer receiver was applied to that copy before the call
-	if ld, isLd := calcCall.Call.Args[1].(*ssa.UnOp); isLd && ld.Op == token.MUL && !normalised && !inlineDefault {
+	if ld, isLd := calcCall.Call.Args[1].(*ssa.UnOp); isLd && ld.Op == token.MUL && !normalised && !inlineDefault && !wrapped {
 		if fa, isFA := ld.X.(*ssa.FieldAddr); isFA && fieldName(fa.X.Type(), fa.Field) == "TimeoutInaccuracy" {
 			for _, b := range calcCall.Parent().Blocks {
 				for _, in := range b.Instrs {
